@@ -153,7 +153,22 @@ Example C01_ex_slices :
   /\ seq_index [1; 2; 3] (-1) = Some 3 /\ seq_index [1; 2; 3] 3 = None.
 Proof. vm_compute. repeat split. Qed.
 
+(* runes: ASCII strings are iterated bytewise; a byte that starts no valid UTF-8 sequence is one rune U+FFFD *)
+Theorem C01_runes_ascii : forall s, all_ascii s = true -> runes s = map (fun c => [c]) s /\ reencode s = s.
+Proof. exact runes_ascii. Qed.
+
+Example C01_ex_runes :
+  runes [97; 255; 98]%N = [[97]; [239; 191; 189]; [98]]%N
+  /\ runes [226; 130; 172; 120]%N = [[226; 130; 172]; [120]]%N          (* a valid 3-byte character, then x *)
+  /\ runes [226; 130; 122]%N = [[239; 191; 189]; [239; 191; 189]; [122]]%N (* truncated sequence: each byte alone *)
+  /\ runes [237; 160; 128]%N = [rune_error; rune_error; rune_error]      (* a surrogate is not a rune *)
+  /\ runes [192; 175]%N = [rune_error; rune_error]                       (* overlong form *)
+  /\ runes [244; 144; 128; 128]%N = [rune_error; rune_error; rune_error; rune_error] (* above U+10FFFF *)
+  /\ runes [240; 159; 152; 128]%N = [[240; 159; 152; 128]]%N.
+Proof. vm_compute. repeat split. Qed.
+
 Print Assumptions C01_eval_fuel_monotone.
+Print Assumptions C01_runes_ascii.
 Print Assumptions C01_eval_fuel_independent.
 Print Assumptions C01_program_fuel_monotone.
 Print Assumptions C01_int_ops_wrap.
